@@ -4,18 +4,20 @@ PROP = Prop(
     models=[("pkg/kfake/persist.go", ["writeEntry", "readEntries", "decodeIndexEntry", "decodeBatchRaw", "Cluster.loadSegmentBatches",
                                       "Cluster.loadPartition", "snapshotMatchesSegments", "Cluster.loadPartitionFromSnapshot",
                                       "Cluster.loadPartitionFullReplay", "Cluster.persistBatchToSegment", "writeJSONFile",
-                                      "replayGroupsLog", "Cluster.loadFromDisk", "Cluster.loadGroupsLog", "Cluster.loadPIDsLog", "truncateLogFile"])],
+                                      "replayGroupsLog", "Cluster.loadFromDisk", "Cluster.loadGroupsLog", "Cluster.loadPIDsLog", "truncateLogFile", "Cluster.loadSessionState"])],
     group_by_reset=True,
     run_timeout={"quick": 900, "thorough": 3000},
-    rule="case = one restart of a real kfake (DataDir+SyncWrites) on a crash image: (workload seed, prefix k of the recorded fs operation "
-         "sequence, tail choice K/L/K.i.n/L.i.n) for EVERY prefix k of every generated workload (raw produce plain/idempotent/transactional, "
-         "EndTxn, OffsetCommit, CreateTopics, InitProducerID), plus second generations (restart on the image, continue a workload, crash "
-         "again at sampled prefixes or clean Close, restart). thorough: every cut of every unsynced tail for the small workloads. "
-         "Workload lines (reset/cont) carry the recorded trace and are checked for the acknowledgement discipline (no unsynced "
-         "byte anywhere when a request is acknowledged). non-trivial = crash point k > 0 (the image holds at least one file), every "
-         "second-generation case, every workload trace with at least one acknowledged request. The start-up phase (initial "
-         "saveToDisk: temp+sync+rename of every state file) is enumerated for the first workload of a run only. distinct = distinct "
-         "op lines (they carry the workload seeds).",
+    rule="case = one restart of a real kfake (DataDir+SyncWrites) on an image of its crash-simulating file system. (A) generation 1: "
+         "EVERY prefix k of the recorded fs operation sequence of a generated workload (raw produce plain/idempotent/transactional, "
+         "EndTxn, OffsetCommit, CreateTopics, InitProducerID) x tail choices K/L/K.i.n/L.i.n (thorough: every cut of every unsynced tail "
+         "of the small workloads), half of the workloads with log.segment.bytes=150 so that segments roll. (B) lineages of 2..4 "
+         "generations in every order of clean Close / crash-with-tail-loss (patterns with a crash after a Close first), 35% with rolls: "
+         "reset, then per generation a workload (every generation appends to t0-0), sampled crash points of that generation (peek: end "
+         "of the trace with all kept / all unsynced lost, random prefixes and cuts) and its stop (close | crash k tail), and after the "
+         "last restart a produce to every partition plus a live read back (probe). Workload lines carry the recorded trace and are "
+         "checked for the acknowledgement discipline and for the start-up truncations the model predicts. non-trivial = k > 0 or any "
+         "later generation, close/probe lines, workload traces with an acknowledged request. distinct = distinct op lines (they carry "
+         "workload seeds and lineage ids).",
     trusted_base=["hand-written model of persist.go (framing, segment/index replay, partition recovery, groups.log replay, start-up) tied by "
                   "differential runs: the model's crash image and recovery must predict the recovered topics, logs (both isolation levels), "
                   "bounds, aborted-transaction lists and committed offsets of the real kfake exactly",
@@ -43,15 +45,19 @@ MANIFEST = {
             "record, restart, more appends, ...) every acknowledged batch replays with its own index metadata and every replayed batch has "
             "an index entry; over ANY number of crash/restart generations of a state log (start-up cuts the torn tail) replay returns per "
             "generation a prefix containing every synced entry, in order; segment replay at byte level drops a torn batch and every batch "
-            "without a complete index entry. One statement is refuted by a decided witness: the implicit abort of transactions open at a "
-            "crash is not stable across recoveries (known finding). The model (crash image + recovery) is "
+            "without a complete index entry. Over every lineage of acknowledged appends (any segment layout, rolls), crashes, restarts and "
+            "clean Closes the partition start-up recovers the end of all complete durable batches whether it takes the snapshot path or "
+            "the full replay: a snapshot is used only when its recorded sizes equal the current file sizes and then it describes exactly "
+            "the current log (snapshot_all_lineages, snapshot_used_only_if_current; refuted for a not-shorter comparison). One statement is "
+            "refuted by a decided witness: the implicit abort of transactions open at a crash is not stable across recoveries (known finding). The model (crash image + recovery) is "
             "tied to the real kfake by restarting it on every crash prefix x sampled tail losses, multi-generation, comparing the protocol-"
             "visible state exactly and evaluating the property's Spec (acked => present, contiguous, no foreign/partial batch, read_committed "
             "consistent with transaction outcomes, committed offsets, topics, clean close identical) on the real outputs.",
     "note": "Trusted: Lean kernel; hand-written model validated differentially, not verified; the harness' crash-simulating file system and "
             "its JSON decoding; CRC-32C, JSON, OS semantics beyond the stated crash model not modelled. Found by this check and fixed in /repo: "
             "index-segment-skew-after-torn-append (fc48882), state-log-torn-tail-kept (a250036); both are regression cases in corpus/C33 and "
-            "plain violations again if they reappear. Still open: crash-aborted-txn-has-no-marker (see known_findings.txt).",
+            "plain violations again if they reappear. Still open: crash-aborted-txn-has-no-marker, snapshot-lso-stuck-after-crash (see "
+            "known_findings.txt).",
     "technique": "Lean 4 proof (induction over entry lists and operation prefixes, decided counterexample histories) with differential "
                  "crash-point enumeration against the real kfake on an injected crash-simulating file system",
 }
